@@ -166,8 +166,7 @@ def verdict(name, mode, crash_at, picks, second=None, store="simple"):
             # time-out instead of the crash-free outcome"; the execution must still terminate and leave nothing unacked
             if not terms:
                 return "C04 execution lost: no terminal notification after a crash during a retry delay (mode %d at %d)" % (mode, crash_at)
-            if any((t["status"], t.get("error")) != ("FAILED", "States.Timeout") for t in terms) and \
-               any((t["status"], t.get("output")) != (bstatus, boutput) for t in terms):
+            if any((t["status"], t.get("error")) != ("FAILED", "States.Timeout") and (t["status"], t.get("output")) != (bstatus, boutput) for t in terms):
                 return "C04 outcome after a crash during a retry delay: %s" % sorted(set((t["status"], t.get("error"), t.get("output")) for t in terms))
             if sim.BROKER.unacked:
                 return "C04 deliveries left unacknowledged after recovery: %d" % len(sim.BROKER.unacked)
@@ -230,7 +229,7 @@ def _mk(name, tiers):
         requires: 1 <= k <= @OPS@ and 1 <= k2 <= 6
         ensures: _ == ""
         """
-        return verdict(name, 2, k, [c0, 0, 0, 0, 0, 0, 0, 0, 0, 0, 0, 0], second=k2)
+        return verdict(name, 2, k, [c0] + [0] * 29, second=k2)
     twice.__name__ = twice.__qualname__ = name + "_two_crashes"
     globals()[twice.__name__] = twice
 
